@@ -93,14 +93,24 @@ def survives(fn, limit=60.0):
         if time.time() - t0 > limit:
             os.kill(pid, signal.SIGKILL); os.waitpid(pid, 0)
             return f'did not return within {limit:.0f} s (killed)'
-        time.sleep(0.0003)
+        time.sleep(0.0002 if time.time() - t0 < 0.05 else 0.005)
     if os.WIFSIGNALED(st):
         sig = os.WTERMSIG(st)
         return f'interpreter killed by signal {sig} ({signal.Signals(sig).name}: abort / failed assertion / segfault in the extension)'
     return None
 
 
-_NET = dict(depth=0, probed=False, in_child=False)
+_NET = dict(depth=0, probed=False, in_child=False, always=True, crashes=0, count={})
+
+
+def _probe_due(site):
+    """quick tier: every call is probed.  Thorough tier (a fork costs 5-10 ms, ~65 000 calls): the first 400 calls of a site,
+    then every fifth -- and EVERY call again as soon as one crash was seen anywhere (a crashing change crashes often; a call
+    that dies unprobed is still reported, by harness/main.py, as a dead harness with the last case)"""
+    if _NET['always'] or _NET['crashes']:
+        return True
+    n = _NET['count'][site] = _NET['count'].get(site, 0) + 1
+    return n <= 400 or n % 5 == 0
 
 
 class CrashInChild(Exception):
@@ -111,6 +121,9 @@ class CrashInChild(Exception):
 
 def crashed(ctx, site, input_class, what, src, fn):
     """True (and a 'crash' finding with repro) when the call does not survive in a child"""
+    if not _probe_due(site):
+        _NET['probed'] = True   # sampled out: the in-process call that follows is not probed by the safety net either
+        return False
     _NET['depth'] += 1        # the child performs the call directly (no nested probe)
     try:
         died = survives(fn)
@@ -119,6 +132,7 @@ def crashed(ctx, site, input_class, what, src, fn):
     if died is None:
         _NET['probed'] = True   # the in-process call that follows was just probed
         return False
+    _NET['crashes'] += 1
     ctx.tick('crash isolated in a child: ' + site)
     ctx.fail('crash', site, input_class, f'{what}: {died}', repro=src)
     return True
@@ -168,8 +182,9 @@ def install_safety_net():
             a = tuple(list(x) if isinstance(x, collections.abc.Iterator) else x for x in a)
             _NET['depth'] += 1
             try:
-                died = survives(lambda: orig(*a, **kw))
+                died = survives(lambda: orig(*a, **kw)) if _probe_due('net:' + site) else None
                 if died is not None:
+                    _NET['crashes'] += 1
                     src = None
                     try:
                         head = _rebuild_src(a[0]) if a else None
@@ -813,7 +828,7 @@ def ineq_dqm_eval(ctx, r, lines, checks, method, ncases, names, d, build, terms,
                              repro=src.replace('if lb <= val(s) <= ub else', 'if (lb <= val(s) <= ub or val(s) == c) else'), detail=dict(slack=repr(sl)))
                     break
         if not sl and not svars and dqm_state(d) == st0:
-            out = 'ski'
+            out = 'skip'
         else:
             sv = []
             for v in svars:
@@ -1443,6 +1458,7 @@ def run(ctx):
                 'sample x every slack assignment; non-trivial = the call added a penalty (not refused, not an empty term list / zero multiplier)')
     lines, checks = [], []
     install_safety_net()
+    _NET['always'] = ctx.quick
     netted(ctx, 'directed_known', lambda: directed_known(ctx))
     n = ctx.scale(260, 6000)
     for _ in range(n):
